@@ -87,6 +87,8 @@ def check_expr(te, seed, acc, variants=('full',)):
             rows = base.rows[len(base.rows) // 2:len(base.rows) // 2 + 1]
         elif variant == 'reversed':
             rows = base.rows[::-1]
+        elif variant == 'dupnames':
+            rows = base.rows
         # Rows on which the reference itself is undefined because of a *data* error (date out of
         # range, Decimal overflow, ...) are outside the property: drop them from the table.
         keep, expected_vals, ref_exc = [], [], None
@@ -109,6 +111,8 @@ def check_expr(te, seed, acc, variants=('full',)):
         conn = connect(t=table, postings=table)
         # ---- target mode
         stmt = select(colnodes + [(te.node, 'r')], from_='t')
+        if variant == 'dupnames':      # every target under the SAME output name: each cell still is its own target's value
+            stmt = select([(c, 'r') for c, _ in colnodes] + [(te.node, 'r')], from_='t')
         acc.count('programs')
         try:
             cur = conn.execute(stmt)
@@ -271,7 +275,7 @@ def check_from(which, acc):
 def programs(tier, seed):
     d1 = astgen.depth1(seed)
     d2 = astgen.depth2(d1, seed, all_slots=False, full_children=True)
-    progs = [(te, ('full', 'empty', 'one', 'reversed')) for te in d1]
+    progs = [(te, ('full', 'empty', 'one', 'reversed', 'dupnames')) for te in d1]
     progs += [(te, ('full',)) for te in d2]
     if tier == 'thorough':
         d2all = astgen.depth2(d1, seed, all_slots=True, max_cols=4)
